@@ -95,7 +95,7 @@ pub mod v3 {
         pub keys: Option<Vec<SearchKeys>>,
 
         /// A `Filter` to apply to the search.
-        #[serde(skip_serializing_if = "RoomEventFilter::is_empty")]
+        #[serde(default, skip_serializing_if = "RoomEventFilter::is_empty")]
         pub filter: RoomEventFilter,
 
         /// The order in which to search for results.
@@ -428,7 +428,7 @@ pub mod v3 {
     #[cfg_attr(not(ruma_unstable_exhaustive_types), non_exhaustive)]
     pub struct SearchResult {
         /// Context for result, if requested.
-        #[serde(skip_serializing_if = "EventContextResult::is_empty")]
+        #[serde(default, skip_serializing_if = "EventContextResult::is_empty")]
         pub context: EventContextResult,
 
         /// A number that describes how closely this result matches the search.
